@@ -1180,6 +1180,10 @@ static const uint8_t *unmarshal_one_fiber(
         if (prevframe > stack - JANET_FRAME_SIZE) {
             janet_panic("fiber stackframe does not align with previous frame");
         }
+        /* Returning from the first frame must leave the interpreter */
+        if (prevframe == 0 && !(frameflags & JANET_STACKFRAME_ENTRANCE)) {
+            janet_panic("fiber's first stackframe is not an entrance frame");
+        }
 
         /* Get stack items */
         for (int32_t i = stack; i < stacktop; i++)
